@@ -532,7 +532,7 @@ EDIT_KINDS = [
     "set_value", "set_value", "clear_value", "set_ref", "set_ref", "set_ref", "shadow_ref", "del_ref",
     "set_mref", "set_mref", "del_mref", "set_cells_formula", "set_cells_formula", "override", "new_cells",
     "del_cells", "rename_cells", "new_space", "del_space", "rename_space", "add_bases", "remove_bases",
-    "set_formula", "del_formula", "set_cached",
+    "set_formula", "del_formula", "set_cached", "copy_cells", "copy_space",
 ]
 
 
@@ -574,6 +574,22 @@ def gen_edit(draw, G, feat, kinds=None):
         if not params and all(isinstance(x, str) for x in sid) and draw(st.booleans()):
             op.append("attr")       # spelled ``space.name = value``
         return op
+    if kind == "copy_cells":
+        cs = G.cells_names(s)
+        if not cs:
+            return None
+        t = draw(st.sampled_from(spaces))
+        new = draw(st.sampled_from(cnames))
+        if G.find_cells(t, new) is not None or new in t.children or G.find_ref(t, new) is not None:
+            return None
+        return ["copy_cells", p, draw(st.sampled_from(cs)), list(t.path), new]
+    if kind == "copy_space":
+        parents = [None] + [t for t in spaces if t.path[:len(s.path)] != s.path]
+        t = draw(st.sampled_from(parents))
+        new = draw(st.sampled_from(["Cp0", "Cp1"]))
+        if (t is None and new in G.spaces) or (t is not None and (new in t.children or G.find_cells(t, new) is not None)):
+            return None
+        return ["copy_space", p, list(t.path) if t is not None else [], new]
     if kind == "clear_value":
         if not G.inputs:
             return None
